@@ -135,6 +135,8 @@ def run_proofreader_options(tex, language, disable, enable,
     #
     def f(m):
         beg = json_get(m, 'offset', int)
+        # NB: map_match_position() accesses this field without further check
+        json_get(m, 'length', int)
         if beg < 0 or beg >= len(charmap_tot):
             tex2txt.fatal('run_proofreader():'
                             + ' bad message read from proofreader')
